@@ -353,6 +353,55 @@ impl<'a, T: Transport> Transferrer<'a, T> {
         Ok(())
     }
 
+    /// Bring the extended attributes of an up-to-date destination file in line with the source.
+    ///
+    /// Changing an attribute changes neither size nor mtime, so the file itself is skipped; with
+    /// `-X` the destination must still end up with exactly the source's attributes.
+    pub async fn refresh_xattrs(&self, file_entry: &FileEntry, dest_path: &Path) -> Result<()> {
+        if !self.preserve_xattrs || self.dry_run || file_entry.is_dir || file_entry.is_symlink {
+            return Ok(());
+        }
+
+        #[cfg(unix)]
+        {
+            let wanted = file_entry.xattrs.clone().unwrap_or_default();
+            let dest_path = dest_path.to_path_buf();
+
+            tokio::task::spawn_blocking(move || {
+                let Ok(names) = xattr::list(&dest_path) else {
+                    return; // not a local file, or attributes not supported
+                };
+                for name in names {
+                    let keep = name.to_str().is_some_and(|n| wanted.contains_key(n));
+                    if !keep {
+                        let _ = xattr::remove(&dest_path, &name);
+                    }
+                }
+                for (name, value) in &wanted {
+                    if !matches!(xattr::get(&dest_path, name), Ok(Some(ref v)) if v == value) {
+                        if let Err(e) = xattr::set(&dest_path, name, value) {
+                            tracing::warn!(
+                                "Failed to set xattr {} on {}: {}",
+                                name,
+                                dest_path.display(),
+                                e
+                            );
+                        }
+                    }
+                }
+            })
+            .await
+            .map_err(|e| SyncError::Io(std::io::Error::other(e.to_string())))?;
+        }
+
+        #[cfg(not(unix))]
+        {
+            let _ = (file_entry, dest_path);
+        }
+
+        Ok(())
+    }
+
     async fn write_acls(&self, file_entry: &FileEntry, dest_path: &Path) -> Result<()> {
         if !self.preserve_acls {
             return Ok(());
